@@ -303,13 +303,20 @@ def _mp_tile_worker(queue, done_event, pio, reproject_function, kwargs):
     invert_into_tiles = pio.get_default_vertical_parity_sign() == 1
 
     while True:
+        # Sample the shutdown flag *before* trying to receive. The producer only
+        # sets it after every item has been flushed to the queue, so "flag was
+        # set, then the receive timed out" means that nothing is left for us.
+        # Checking the flag only after the timeout could race with the producer
+        # flushing its last item and lose that item.
+        done = done_event.is_set()
+
         try:
             # un-pickling WCS objects always triggers warnings right now
             with warnings.catch_warnings():
                 warnings.simplefilter("ignore")
                 image, desc, combined_wcs = queue.get(True, timeout=10)
         except Empty:
-            if done_event.is_set():
+            if done:
                 break
             continue
 
